@@ -114,27 +114,31 @@ End CRewrite.
 (* ---- local functions: what happens at the parent of x ---- *)
 Definition loose_id (l : cloose) : nid := match l with LEl e => cid e | LText t => t_id t end.
 
+(* what a move reports for the guards of the refinement theorem: the default namespace in scope where the node
+   lands, and whether nothing was overwritten *)
+Definition minfo := (str * bool)%type.
+
 (* x._add_following_sibling(n) *)
-Definition f_add_following (x : nid) (n : cloose) (_ : str) (e : cel) : option (cel * unit) :=
+Definition f_add_following (x : nid) (n : cloose) (inh : str) (e : cel) : option (cel * minfo) :=
   match e with
   | CEl i k own data kids =>
       match split_texts x (chain_texts data) with
       | Some (b, m, a) =>                                   (* x is a text in the data chain (DATA / APPENDED) *)
           match n with
-          | LText t => Some (CEl i k own (chain_of (b ++ m :: t :: a)) kids, tt)
-          | LEl c => Some (CEl i k own (chain_of (b ++ [m])) ((c, chain_of a) :: kids), tt)
+          | LText t => Some (CEl i k own (chain_of (b ++ m :: t :: a)) kids, (in_scope inh own, true))
+          | LEl c => Some (CEl i k own (chain_of (b ++ [m])) ((c, chain_of a) :: kids), (in_scope inh own, true))
           end
       | None =>
           match split_kids x kids with
           | Some (bk, (c0, t0), ak, KEl) =>                 (* x is an element-like node *)
               match n with
-              | LText t => Some (CEl i k own data (bk ++ (c0, chain_of (t :: chain_texts t0)) :: ak), tt)
-              | LEl c => Some (CEl i k own data (bk ++ (c0, no_chain) :: (c, chain_of (chain_texts t0)) :: ak), tt)
+              | LText t => Some (CEl i k own data (bk ++ (c0, chain_of (t :: chain_texts t0)) :: ak), (in_scope inh own, true))
+              | LEl c => Some (CEl i k own data (bk ++ (c0, no_chain) :: (c, chain_of (chain_texts t0)) :: ak), (in_scope inh own, true))
               end
           | Some (bk, (c0, _), ak, KTail b m a) =>          (* x is a text in a tail chain (TAIL / APPENDED) *)
               match n with
-              | LText t => Some (CEl i k own data (bk ++ (c0, chain_of (b ++ m :: t :: a)) :: ak), tt)
-              | LEl c => Some (CEl i k own data (bk ++ (c0, chain_of (b ++ [m])) :: (c, chain_of a) :: ak), tt)
+              | LText t => Some (CEl i k own data (bk ++ (c0, chain_of (b ++ m :: t :: a)) :: ak), (in_scope inh own, true))
+              | LEl c => Some (CEl i k own data (bk ++ (c0, chain_of (b ++ [m])) :: (c, chain_of a) :: ak), (in_scope inh own, true))
               end
           | None => None
           end
@@ -142,40 +146,42 @@ Definition f_add_following (x : nid) (n : cloose) (_ : str) (e : cel) : option (
   end.
 
 (* TextNode._add_preceding_sibling(n) for the text node x, and lxml addprevious for elements *)
-Definition f_add_preceding (x : nid) (n : cloose) (_ : str) (e : cel) : option (cel * unit) :=
+Definition f_add_preceding (x : nid) (n : cloose) (inh : str) (e : cel) : option (cel * minfo) :=
   match e with
   | CEl i k own data kids =>
       match split_texts x (chain_texts data) with
       | Some (b, m, a) =>
           match n with
-          | LText t => Some (CEl i k own (chain_of (b ++ t :: m :: a)) kids, tt)
-          | LEl c => Some (CEl i k own (chain_of b) ((c, chain_of (m :: a)) :: kids), tt)
+          | LText t => Some (CEl i k own (chain_of (b ++ t :: m :: a)) kids, (in_scope inh own, true))
+          | LEl c => Some (CEl i k own (chain_of b) ((c, chain_of (m :: a)) :: kids), (in_scope inh own, true))
           end
       | None =>
           match split_kids x kids with
           | Some (bk, (c0, t0), ak, KEl) =>                 (* lxml addprevious *)
               match n with
-              | LEl c => Some (CEl i k own data (bk ++ (c, no_chain) :: (c0, t0) :: ak), tt)
+              | LEl c => Some (CEl i k own data (bk ++ (c, no_chain) :: (c0, t0) :: ak), (in_scope inh own, true))
               | LText _ => None
               end
           | Some (bk, (c0, _), ak, KTail b m a) =>
               match n with
-              | LText t => Some (CEl i k own data (bk ++ (c0, chain_of (b ++ t :: m :: a)) :: ak), tt)
-              | LEl c => Some (CEl i k own data (bk ++ (c0, chain_of b) :: (c, chain_of (m :: a)) :: ak), tt)
+              | LText t => Some (CEl i k own data (bk ++ (c0, chain_of (b ++ t :: m :: a)) :: ak), (in_scope inh own, true))
+              | LEl c => Some (CEl i k own data (bk ++ (c0, chain_of b) :: (c, chain_of (m :: a)) :: ak), (in_scope inh own, true))
               end
           | None => None
           end
       end
   end.
 
-Definition f_bind_data (p : nid) (n : cloose) (_ : str) (e : cel) : option (cel * unit) :=
+Definition f_bind_data (p : nid) (n : cloose) (inh : str) (e : cel) : option (cel * minfo) :=
   match e, n with
-  | CEl i k own data kids, LText t => if N.eqb i p then Some (CEl i k own (chain_of [t]) kids, tt) else None
+  | CEl i k own data kids, LText t =>
+      (* `target._data_node = self`: whatever hung off the text slot before is no longer reachable (finding 29) *)
+      if N.eqb i p then Some (CEl i k own (chain_of [t]) kids, (in_scope inh own, null (chain_texts data))) else None
   | _, _ => None
   end.
-Definition f_append_el (p : nid) (n : cloose) (_ : str) (e : cel) : option (cel * unit) :=
+Definition f_append_el (p : nid) (n : cloose) (inh : str) (e : cel) : option (cel * minfo) :=
   match e, n with
-  | CEl i k own data kids, LEl c => if N.eqb i p then Some (CEl i k own data (kids ++ [(c, no_chain)]), tt) else None
+  | CEl i k own data kids, LEl c => if N.eqb i p then Some (CEl i k own data (kids ++ [(c, no_chain)]), (in_scope inh own, true)) else None
   | _, _ => None
   end.
 
@@ -272,15 +278,14 @@ Fixpoint ctake_loose (n : nid) (l : list cloose) : option (cloose * list cloose)
 Definition cadd_loose (t : cloose) (w : cworld) : cworld :=
   {| w_docs := w_docs w; w_loose := w_loose w ++ [t] |}.
 
-Definition c_move (n : nid) (ok : cloose -> bool) (f : cloose -> str -> cel -> option (cel * unit)) (w : cworld)
-  : cworld :=
+Definition c_move_o (n : nid) (ok : cloose -> bool) (f : cloose -> str -> cel -> option (cel * minfo)) (w : cworld)
+  : option (cworld * minfo) :=
   match ctake_loose n (w_loose w) with
-  | Some (t, l') =>
-      if ok t
-      then match cw_rw (f t) {| w_docs := w_docs w; w_loose := l' |} with Some (w2, _) => w2 | None => w end
-      else w
-  | None => w
+  | Some (t, l') => if ok t then cw_rw (f t) {| w_docs := w_docs w; w_loose := l' |} else None
+  | None => None
   end.
+Definition c_move (n : nid) (ok : cloose -> bool) (f : cloose -> str -> cel -> option (cel * minfo)) (w : cworld)
+  : cworld := match c_move_o n ok f w with Some (w2, _) => w2 | None => w end.
 Definition any_loose (_ : cloose) : bool := true.
 Definition is_ltext (l : cloose) : bool := match l with LText _ => true | LEl _ => false end.
 Fixpoint cset_loose (x : nid) (s : str) (l : list cloose) : list cloose :=
